@@ -3,6 +3,8 @@
 For every map keyed by a pair of identifiers `(String, String)` built from BinaryRecord.{id1,id2}:
 either both orientations are inserted (gc-PC-SAFT builders), or every `get(&(a, b))` is followed by the fallback
 `.or_else(|| map.get(&(b, a)))` with the two operands swapped (core builders)."""
+import json
+
 from cfg import Defs, strip_place
 from facts import callee
 from report import RuleResult
@@ -144,5 +146,143 @@ def run(F):
         else:
             r.inst(iid, where, "ok", idiom="lookup with swapped fallback", lookups=len(gets))
     r.floor("pair-keyed maps", n_maps, 4)
+    canonical_keys(F, r)
     r.exhaustive = True
     return [r]
+
+
+def canonical_keys(F, r):
+    """R14b — accumulator maps keyed by an *unordered* pair `[a, b]` (bond counts): the key handed to `entry` / `insert` /
+    `get` must be canonicalised, i.e. defined on two branches as `[a, b]` and `[b, a]`, selected by an order comparison of
+    exactly those two operands. Otherwise the bond A-B and the bond B-A of a chemical record are counted separately
+    (or one of them is lost) depending on the order in which the user listed the segments."""
+    n = 0
+    for b in F.bodies:
+        defs = None
+        for bi, t in b.calls():
+            p, tr, name = callee(t)
+            if name not in ("entry", "insert", "get", "get_mut", "contains_key") or not ("HashMap" in p or "IndexMap" in p or "BTreeMap" in p):
+                continue
+            if len(t["args"]) < 2:
+                continue
+            kty = b.opty(t["args"][1])
+            if not kty:
+                continue
+            ks = kty["s"].replace(" ", "").lstrip("&")
+            if not (ks.startswith("[") and ks.endswith(";2]")):
+                continue
+            defs = defs or Defs(b)
+            n += 1
+            iid = "unordered-key|%s|%s" % (b.path, name)
+            why = _canonical(F, b, defs, t["args"][1])
+            if why is None:
+                r.inst(iid, t["span"], "ok", idiom="[a, b] / [b, a] selected by comparison of a and b", key_type=kty["s"])
+            else:
+                r.inst(iid, t["span"], "violation")
+                r.fail("unordered-key|%s|%s|not-canonical" % (b.path, name), t["span"],
+                       "%s: the map key of type %s is an unordered pair (bond between two segments) but %s — bonds listed as "
+                       "A-B and as B-A are no longer accumulated in one entry" % (b.path, kty["s"], why))
+    r.floor("unordered-pair keyed accumulators", n, 2)
+
+
+def _named_root(F, body, defs, op, depth=0):
+    """the user variable an operand is a copy / reference / clone of (falls back to root_of with the full projection)"""
+    if op.get("k") not in ("copy", "move") or depth > 12:
+        return ("const", json.dumps(op, sort_keys=True))
+    pl = op["place"]
+    l, projs = strip_place(pl)
+    if not projs and body.lname(l):
+        return ("var", l)
+    if projs:
+        return ("proj", l, json.dumps(projs, sort_keys=True, default=str))
+    ds = defs.of(l)
+    if len(ds) != 1:
+        return ("local", l)
+    d = ds[0]
+    if d[0] == "stmt":
+        rv = d[4]
+        if rv["k"] in ("use", "cast") and rv["op"].get("k") in ("copy", "move"):
+            return _named_root(F, body, defs, rv["op"], depth + 1)
+        if rv["k"] == "ref":
+            return _named_root(F, body, defs, {"k": "copy", "place": rv["place"]}, depth + 1)
+        return ("local", l)
+    t = d[2]
+    if callee(t)[2] in ("clone", "to_owned", "deref", "borrow", "as_ref") and t["args"]:
+        return _named_root(F, body, defs, t["args"][0], depth + 1)
+    return ("local", l)
+
+
+def _canonical(F, body, defs, op):
+    if op.get("k") not in ("copy", "move"):
+        return "the key is a constant"
+    l = op["place"]["l"]
+    aggs = []
+    for _ in range(6):
+        ds = defs.of(l)
+        if len(ds) == 1 and ds[0][0] == "stmt":
+            rv = ds[0][4]
+            if rv["k"] == "ref":
+                l = rv["place"]["l"]
+                continue
+            if rv["k"] == "use" and rv["op"].get("k") in ("copy", "move"):
+                l = rv["op"]["place"]["l"]
+                continue
+        break
+    ds = defs.of(l)
+    for d in ds:
+        if d[0] != "stmt" or d[4]["k"] != "agg" or d[4]["kind"].get("t") != "array" or len(d[4]["ops"]) != 2:
+            return "its definition is not a two-element array literal on every path"
+        aggs.append((d[1], tuple(_named_root(F, body, defs, o) for o in d[4]["ops"])))
+    if len(aggs) != 2:
+        return "it is built in %d place(s) instead of the two orientations [a, b] / [b, a]" % len(aggs)
+    (b1, k1), (b2, k2) = aggs
+    if k1 != (k2[1], k2[0]) or k1[0] == k1[1]:
+        return "its two definitions are not the two orientations of one pair"
+    # the two literals must sit on the two arms of one switch whose condition compares exactly these two operands
+    doms = _switch_over(body, b1, b2)
+    if doms is None:
+        return "its two definitions are not the two arms of one branch"
+    sw_block, cond_local = doms
+    cds = defs.of(cond_local)
+    if len(cds) != 1:
+        return "the branch condition has several definitions"
+    d = cds[0]
+    ops = None
+    if d[0] == "stmt" and d[4]["k"] == "binop" and d[4]["op"] in ("Gt", "Lt", "Ge", "Le"):
+        ops = [d[4]["a"], d[4]["b"]]
+    elif d[0] == "call" and callee(d[2])[2] in ("gt", "lt", "ge", "le") and len(d[2]["args"]) == 2:
+        ops = d[2]["args"]
+    if not ops or None in ops:
+        return "the branch selecting the orientation is not an order comparison"
+    cr = tuple(_named_root(F, body, defs, o) for o in ops)
+    if set(cr) != set(k1):
+        return "the comparison selecting the orientation is not between the two key operands"
+    return None
+
+
+def _switch_over(body, b1, b2):
+    """the switch block whose two targets lead (through gotos only) to b1 and b2"""
+    preds = body.preds()
+
+    def up(bi):
+        seen = 0
+        while seen < 6:
+            ps = preds[bi]
+            if len(ps) != 1:
+                return None
+            pb = ps[0]
+            if body.blocks[pb]["term"]["k"] == "switch":
+                return pb
+            if body.blocks[pb]["term"]["k"] != "goto":
+                return None
+            bi = pb
+            seen += 1
+        return None
+    s1, s2 = up(b1), up(b2)
+    if s1 is None or s1 != s2:
+        return None
+    t = body.blocks[s1]["term"]
+    d = t.get("op")
+    if not d or d.get("k") not in ("copy", "move"):
+        return None
+    return s1, d["place"]["l"]
